@@ -12,6 +12,12 @@ NOTE_COMMON = ("Trusted base: go/packages + go/types type-check of /repo's worki
 
 # id -> (technique, level text, level note, design ref)
 CLAIMS = {
+    "C08": (
+        "reaching-definition + path-fact analysis of every dereference of getUnlocked's result, must/may lockset data-flow over the statement-level CFG (Wait under the write lock, Broadcast under the lock, every return releases, no upgrade), dominance of Broadcast by the successful write, pairing of every batch rewrite/deletion with the cache eviction in the same critical section",
+        "Partial: decides four structural necessary conditions of 'never panics / never stays blocked although a successor exists' in the output stream: checked look-ups, condition-variable discipline, cache coherence and lock hygiene "
+        "(the file is whitelisted from the project's own textual lock test). Correctness of GetNext under all interleavings of Add/Delete/GetNext is a schedule property and is not decided.",
+        NOTE_COMMON + " Known finding: the wait loop's unchecked look-up (findings/C08-getnext-deleted-while-waiting).",
+        "DESIGN.md section 3, C08"),
     "C09": (
         "sibling-agreement and key-derivation analysis of the LevelDB store's methods (constant-prefix identity, byte-order object identity, def-use of database keys), facts at the error-mapping returns, shape of the index scans, interval-convention check at every GetBulkIterator call site",
         "Partial: decides key-space separation between log entries and stable-store keys, agreement of the four stable-store methods and of the log writers, the error contract (raft.ErrLogNotFound, zero value for missing keys, index 0 only for an empty log), "
